@@ -19,9 +19,10 @@ VARIABLES
   now, height,
   bridge,       \* opaque digest of the bitcoin module store (last observed)
   bridgeDirty,  \* something in this block may legitimately have changed bridge state
-  acceptedLog   \* history: vote ids accepted so far (C02)
+  acceptedLog,  \* history: vote ids accepted so far (C02)
+  tip, curKey   \* the two bridge values the kind-specific checks of the simple voted kinds depend on
 
-tvars == << l, now, height, bridge, bridgeDirty, acceptedLog >>
+tvars == << l, now, height, bridge, bridgeDirty, acceptedLog, tip, curKey >>
 B(x) == x \in Bind
 
 Ev == Trace[l]
@@ -35,7 +36,9 @@ StateFrom(st) ==
   /\ epoch' = st.epoch
   /\ lastElected' = st.lastElected
   /\ accepted' = st.accepted
-  /\ rec' = [m \in Members |-> IF m \in DOMAIN st.rec THEN st.rec[m] ELSE NoRec]
+  /\ rec' = [m \in Members |-> IF m \in DOMAIN st.rec THEN
+                 (IF st.rec[m].status = "none" THEN NoRec ELSE [status |-> st.rec[m].status, key |-> st.rec[m].key, height |-> st.rec[m].height])
+               ELSE NoRec]
   /\ onQ' = st.onQ /\ offQ' = st.offQ
   /\ seq' = st.seq
   /\ randao' = st.randao
@@ -44,7 +47,7 @@ StateFrom(st) ==
   /\ halted' = FALSE
 
 TInit ==
-  /\ l = 1 /\ now = 0 /\ height = 0 /\ bridge = "" /\ bridgeDirty = FALSE /\ acceptedLog = << >>
+  /\ l = 1 /\ now = 0 /\ height = 0 /\ bridge = "" /\ bridgeDirty = FALSE /\ acceptedLog = << >> /\ tip = 0 /\ curKey = ""
   /\ proposer = (CHOOSE m \in Members : TRUE) /\ voters = << >> /\ epoch = 0 /\ lastElected = 0 /\ accepted = TRUE
   /\ rec = [m \in Members |-> NoRec] /\ onQ = << >> /\ offQ = << >> /\ seq = 0 /\ randao = << >>
   /\ pubkeys = {} /\ accounts = {} /\ halted = FALSE
@@ -55,26 +58,34 @@ TraceInitEv ==
   /\ StateFrom(Ev.st)
   /\ now' = Ev.t /\ height' = Ev.h /\ bridge' = Ev.st.bridge /\ bridgeDirty' = FALSE
   /\ acceptedLog' = << >>
+  /\ tip' = Ev.st.tip /\ curKey' = Ev.st.curKey
 
 TraceBegin ==
   /\ IsEvent("begin")
   /\ now' = Ev.t /\ height' = Ev.h
   /\ bridgeDirty' = FALSE
-  /\ UNCHANGED << rvars, bridge, acceptedLog >>
+  /\ UNCHANGED << rvars, bridge, acceptedLog, tip, curKey >>
 
 (* the block message: only its relayer part is modelled here; its success is an input *)
 TraceEl ==
   /\ IsEvent("el")
   /\ IF Ev.ok THEN ElRequests(Ev.adds, Ev.removes, height) ELSE UNCHANGED rvars
   /\ bridgeDirty' = (bridgeDirty \/ ~Ev.idle)
-  /\ UNCHANGED << now, height, bridge, acceptedLog >>
+  /\ UNCHANGED << now, height, bridge, acceptedLog, tip, curKey >>
 
 VoteMsg(e) ==
   [ pf |-> e.pf, mseq |-> e.mseq, mepoch |-> e.mepoch, marks |-> ToSet(e.marks), signers |-> ToSet(e.signers),
     doc |-> SignDoc(e.doc.chain, e.doc.seq, e.doc.epoch, e.doc.kind, e.doc.proposer, e.doc.payload), sigOk |-> e.sigOk ]
 
 \* pre / post: the kind-specific checks before / after the quorum check (construction facts of the harness)
-VoteVerdict(e) == e.pre /\ QuorumOk(VoteMsg(e), e.kind, e.payload) /\ e.post
+KindPre(e) ==
+  CASE e.kind = "NewBlockHashes"   -> e.start = tip + 1          \* checked before the quorum
+    [] e.kind = "NewConsolidation" -> e.payTo = curKey           \* pays the latest relayer key
+    [] OTHER -> TRUE
+KindPost(e) ==
+  CASE e.kind = "NewPubkey" -> e.key \notin pubkeys              \* "the key already existed" is checked after the quorum
+    [] OTHER -> TRUE
+VoteVerdict(e) == e.pre /\ KindPre(e) /\ QuorumOk(VoteMsg(e), e.kind, e.payload) /\ KindPost(e) /\ e.post
 
 TraceVote ==
   /\ IsEvent("vote")
@@ -84,7 +95,9 @@ TraceVote ==
             /\ pubkeys' = IF Ev.kind = "NewPubkey" THEN pubkeys \cup {Ev.key} ELSE pubkeys
             /\ acceptedLog' = Append(acceptedLog, Ev.vid)
             /\ bridgeDirty' = TRUE
-       ELSE UNCHANGED << rvars, acceptedLog, bridgeDirty >>
+            /\ tip' = IF Ev.kind = "NewBlockHashes" THEN tip + Ev.nh ELSE tip
+            /\ curKey' = IF Ev.kind = "NewPubkey" THEN Ev.key ELSE curKey
+       ELSE UNCHANGED << rvars, acceptedLog, bridgeDirty, tip, curKey >>
   /\ UNCHANGED << now, height, bridge >>
 
 TraceNewVoter ==
@@ -93,50 +106,53 @@ TraceNewVoter ==
                txProofOk |-> Ev.txProofOk, blsProofOk |-> Ev.blsProofOk] IN
      /\ B("newvoter") => (Ev.ok = NewVoterOk(p))
      /\ IF Ev.ok THEN NewVoterApply(p) ELSE UNCHANGED rvars
-  /\ UNCHANGED << now, height, bridge, bridgeDirty, acceptedLog >>
+  /\ UNCHANGED << now, height, bridge, bridgeDirty, acceptedLog, tip, curKey >>
 
 TraceAccept ==
   /\ IsEvent("accept")
   /\ B("accept") => (Ev.ok = AcceptProposerOk(Ev.pf, Ev.epoch, now))
   /\ IF Ev.ok THEN AcceptProposerApply ELSE UNCHANGED rvars
-  /\ UNCHANGED << now, height, bridge, bridgeDirty, acceptedLog >>
+  /\ UNCHANGED << now, height, bridge, bridgeDirty, acceptedLog, tip, curKey >>
 
 (* a non-voted bridge message: its verdict belongs to Bridge.tla; here only the implicit acceptance *)
 TraceNonVoted ==
   /\ IsEvent("nonvoted")
   /\ Ev.ok => NonVotedOk(Ev.pf)
   /\ IF Ev.ok THEN AcceptNonVoted /\ bridgeDirty' = TRUE ELSE UNCHANGED << rvars, bridgeDirty >>
-  /\ UNCHANGED << now, height, bridge, acceptedLog >>
+  /\ UNCHANGED << now, height, bridge, acceptedLog, tip, curKey >>
 
 (* a transaction that is no relayer/bridge message (or is malformed): must fail and change nothing here *)
 TraceOther ==
   /\ IsEvent("other")
   /\ Ev.ok = FALSE
-  /\ UNCHANGED << rvars, now, height, bridge, bridgeDirty, acceptedLog >>
+  /\ UNCHANGED << rvars, now, height, bridge, bridgeDirty, acceptedLog, tip, curKey >>
 
-RecMatches(st) == \A m \in Members : m \in DOMAIN st.rec =>
-                     /\ rec'[m].status = st.rec[m].status
-                     /\ rec'[m].key = st.rec[m].key
-                     /\ (rec'[m].status # "none" => rec'[m].height = st.rec[m].height)
+RecOf(st) == [m \in Members |-> IF m \in DOMAIN st.rec THEN
+                  (IF st.rec[m].status = "none" THEN NoRec ELSE [status |-> st.rec[m].status, key |-> st.rec[m].key, height |-> st.rec[m].height])
+                ELSE NoRec]
 
-StateMatches(st) ==
-  /\ B("group")    => (proposer' = st.proposer /\ voters' = st.voters /\ RecMatches(st) /\ onQ' = st.onQ /\ offQ' = st.offQ)
-  /\ B("epoch")    => (epoch' = st.epoch /\ lastElected' = st.lastElected)
-  /\ B("accepted") => accepted' = st.accepted
-  /\ B("seq")      => (seq' = st.seq /\ randao' = st.randao)
-  /\ B("pubkeys")  => pubkeys' = ToSet(st.pubkeys)
-  /\ B("accounts") => accounts' = ToSet(st.accounts)
-  /\ st.unknown = 0
-
+(* end of block: EndBlocker, then the complete projected state.  Observations the property under check  *)
+(* speaks about (Bind) must equal what the specification computed; the specification then continues    *)
+(* from the observed state, so that a divergence in a slice that belongs to another property does not   *)
+(* cascade into this one.                                                                               *)
 TraceEnd ==
   /\ IsEvent("end")
-  /\ \E k \in ToSet(Ev.idx) \cup {0} :
-       /\ EndBlock(Ev.t, k)
-       /\ (Len(voters') > 1 => k = Ev.idx[Len(voters')])
-  /\ ~halted'
-  /\ StateMatches(Ev.st)
-  /\ bridge' = Ev.st.bridge
-  /\ (B("bridge") /\ ~bridgeDirty) => Ev.st.bridge = bridge
+  /\ LET st == Ev.st
+         n  == ElectorateSize(Ev.t)
+         r  == EndResult(Ev.t, IF n > 1 THEN Ev.idx[n] ELSE 0)
+     IN
+     /\ ~r.halted
+     /\ B("group")    => (r.proposer = st.proposer /\ r.voters = st.voters /\ r.rec = RecOf(st) /\ r.onQ = st.onQ /\ r.offQ = st.offQ)
+     /\ B("epoch")    => (r.epoch = st.epoch /\ r.lastElected = st.lastElected)
+     /\ B("accepted") => r.accepted = st.accepted
+     /\ B("seq")      => (seq = st.seq /\ randao = st.randao)
+     /\ B("pubkeys")  => pubkeys = ToSet(st.pubkeys)
+     /\ B("accounts") => accounts = ToSet(st.accounts)
+     /\ st.unknown = 0
+     /\ (B("bridge") /\ ~bridgeDirty) => st.bridge = bridge
+     /\ B("bridge") => (st.tip = tip /\ st.curKey = curKey)
+     /\ StateFrom(st)
+     /\ bridge' = st.bridge /\ tip' = st.tip /\ curKey' = st.curKey
   /\ UNCHANGED << now, height, bridgeDirty, acceptedLog >>
 
 TNext == TraceInitEv \/ TraceBegin \/ TraceEl \/ TraceVote \/ TraceNewVoter \/ TraceAccept
